@@ -307,7 +307,7 @@ mutual
 theorem refl_node : ∀ n : Node, GPair R (renderNode c n) (renderNode c n)
   | .text l s => gpair_node_text hR c l s trivial
   | .obj l e => gpair_node_obj hR c (ctxChunks_true c) l e
-  | .raw sl => gpair_node_raw hR c sl (fun _ _ => trivial)
+  | .raw sl => gpair_node_raw hR c sl trivial (fun _ _ => trivial)
   | .trim b => refl_trimNode hR hop c hc b
   | .assign l x e => gpair_node_assign hR c l x e
   | .capture l x _ => gpair_node_capture hR c l x (gpair_quiet hR (quiet_capture _))
@@ -320,7 +320,7 @@ theorem refl_node : ∀ n : Node, GPair R (renderNode c n) (renderNode c n)
       (gpair_blockBody hR c (refl_list els))
   | .loop l t v e m body (_ :: _ :: _) =>
     gpair_node_loop2 hR (fun _ _ => trivial) c l t v e m _ _ _ _ _ _ (gpair_blockBody hR c (refl_list body))
-  | .cycle l g v0 r => gpair_node_cycle hR c l g v0 r (fun _ _ => trivial)
+  | .cycle l g v0 r => gpair_node_cycle hR c l g v0 r trivial (fun _ _ => trivial)
   | .brk l => gpair_node_brk hR c l
   | .cont l => gpair_node_cont hR c l
   | .incl l a => gpair_node_incl hR c hc (ctxChunks_true c) l a
@@ -359,7 +359,7 @@ mutual
 theorem face_node : ∀ n : Node, (∀ u ∈ litNode n, TrimComm u) → GPair FaceRel (renderNode c n) (renderNode c (faceLNode n))
   | .text l s, _ => by rw [faceLNode]; exact gpair_node_text faceRel_ok c l s trivial
   | .obj l e, _ => by rw [faceLNode]; exact gpair_node_obj faceRel_ok c (ctxChunks_true c) l e
-  | .raw sl, _ => by rw [faceLNode]; exact gpair_node_raw faceRel_ok c sl (fun _ _ => trivial)
+  | .raw sl, _ => by rw [faceLNode]; exact gpair_node_raw faceRel_ok c sl trivial (fun _ _ => trivial)
   | .trim b, _ => by rw [faceLNode]; exact refl_trimNode faceRel_ok (fun op => faceRel_refl [op]) c hc b
   | .assign l x e, _ => by rw [faceLNode]; exact gpair_node_assign faceRel_ok c l x e
   | .capture l x body, hl => by
@@ -385,7 +385,7 @@ theorem face_node : ∀ n : Node, (∀ u ∈ litNode n, TrimComm u) → GPair Fa
     rw [faceLNode, faceLClauses, faceLClauses]
     exact gpair_node_loop2 faceRel_ok (fun _ _ => trivial) c l t v e m _ _ _ _ _ _
       (gpair_blockBody faceRel_ok c (face_list body (fun u hu => hl u (by simp [litNode, hu]))).1)
-  | .cycle l g v0 r, _ => by rw [faceLNode]; exact gpair_node_cycle faceRel_ok c l g v0 r (fun _ _ => trivial)
+  | .cycle l g v0 r, _ => by rw [faceLNode]; exact gpair_node_cycle faceRel_ok c l g v0 r trivial (fun _ _ => trivial)
   | .brk l, _ => by rw [faceLNode]; exact gpair_node_brk faceRel_ok c l
   | .cont l, _ => by rw [faceLNode]; exact gpair_node_cont faceRel_ok c l
   | .incl l a, _ => by rw [faceLNode]; exact gpair_node_incl faceRel_ok c hc (ctxChunks_true c) l a
